@@ -22,7 +22,8 @@ use std::panic::{catch_unwind, AssertUnwindSafe};
 use std::sync::Mutex;
 use trust_hir::db::{Database, FileId, SemanticDatabase, SourceDatabase};
 use trust_hir::symbols::SymbolTable;
-use trust_hir::{Diagnostic, DiagnosticSeverity, TypeId};
+use trust_hir::diagnostics::DiagnosticCode;
+use trust_hir::{Diagnostic, TypeId};
 
 pub const KINDS: [&str; 4] = ["diagnostics", "analyze", "symbols", "types"];
 const NAMES: [&str; 3] = ["Fn1", "Fn2", "Ty1"];
@@ -48,7 +49,7 @@ pub fn render(idx: usize, e: &J) -> String {
     for d in e["decls"].as_array().map(|a| a.as_slice()).unwrap_or(&[]) {
         let (n, ty) = (d["n"].as_str().unwrap(), d["ty"].as_str().unwrap());
         if is_fn(n) {
-            let body = if ty == "BOOL" { format!("{n} := x > 0;") } else { format!("{n} := x;") };
+            let body = if ty == "BOOL" { format!("{n} := x > 0;") } else { format!("{n} := x + 0;") };
             s.push_str(&format!("FUNCTION {n} : {ty}\nVAR_INPUT\n    x : INT;\nEND_VAR\n{body}\nEND_FUNCTION\n\n"));
         } else {
             s.push_str(&format!("TYPE {n} : {ty};\nEND_TYPE\n\n"));
@@ -125,6 +126,44 @@ fn gen_entry(rng: &mut StdRng, idx: usize, soups: bool) -> J {
     e
 }
 
+/// Same rendering length, different meaning: Fn1 <-> Fn2 swapped, or DINT <-> BOOL in a declaration.
+fn twin(rng: &mut StdRng, b: &J) -> J {
+    let mut e = b.clone();
+    let swap = |n: &str| match n {
+        "Fn1" => "Fn2".to_string(),
+        "Fn2" => "Fn1".to_string(),
+        o => o.to_string(),
+    };
+    let sorted = |mut v: Vec<J>, key: fn(&J) -> String| {
+        v.sort_by_key(key);
+        v
+    };
+    if rng.gen_bool(0.5) {
+        let refs: Vec<J> = b["refs"].as_array().unwrap().iter().map(|n| json!(swap(n.as_str().unwrap()))).collect();
+        e["refs"] = json!(sorted(refs, |x| x.as_str().unwrap().to_string()));
+        if rng.gen_bool(0.5) {
+            let decls: Vec<J> = b["decls"].as_array().unwrap().iter().map(|d| json!({"n": swap(d["n"].as_str().unwrap()), "ty": d["ty"]})).collect();
+            e["decls"] = json!(sorted(decls, |x| x["n"].as_str().unwrap().to_string()));
+        }
+    } else {
+        let decls: Vec<J> = b["decls"]
+            .as_array()
+            .unwrap()
+            .iter()
+            .map(|d| {
+                let ty = match (d["n"].as_str().unwrap(), d["ty"].as_str().unwrap()) {
+                    (n, "DINT") if is_fn(n) => "BOOL",
+                    (n, "BOOL") if is_fn(n) => "DINT",
+                    (_, t) => t,
+                };
+                json!({"n": d["n"], "ty": ty})
+            })
+            .collect();
+        e["decls"] = json!(decls);
+    }
+    e
+}
+
 fn soup(rng: &mut StdRng, text: &str) -> String {
     const JUNK: [&str; 22] = ["END_VAR", "(", ")", "PROGRAM ", "FUNCTION ", "'", ":=", "(*", "*)", "%IX0.0", "16#", "END_TYPE", "é", "😀", "\u{0}",
         "END_PROGRAM", ";", "VAR_EXTERNAL ", " : ", "Fn1", "Ty1", "\r\n"];
@@ -161,7 +200,15 @@ fn gen_script(rng: &mut StdRng, n: usize) -> J {
     let nfiles = rng.gen_range(1..=5usize);
     let ncat = rng.gen_range(3..=8usize);
     let soups = n % 3 == 0;
-    let cat: Vec<J> = (0..ncat).map(|i| gen_entry(rng, i + 1, soups)).collect();
+    let mut cat: Vec<J> = Vec::new();
+    for i in 0..ncat {
+        // a twin: the same shape (and byte length) as an earlier content, but another meaning
+        let base: Option<J> = if i > 0 && rng.gen_bool(0.3) { Some(cat[rng.gen_range(0..i)].clone()) } else { None };
+        match base {
+            Some(b) if b["shape"] == "ok" && b["opaque"] == json!(false) => cat.push(twin(rng, &b)),
+            _ => cat.push(gen_entry(rng, i + 1, soups)),
+        }
+    }
     let nsteps = rng.gen_range(3..=30usize);
     let mut cur: Vec<usize> = vec![0; nfiles + 1];
     let mut steps = Vec::new();
@@ -276,7 +323,7 @@ fn ask(db: &Database, kind: &str, f: u32, offs: &[u32]) -> Ans {
 fn project(ans: &Ans, refs: &[(String, (u32, u32))]) -> Vec<J> {
     let unres = |d: &Vec<Diagnostic>, r: (u32, u32)| {
         d.iter().any(|x| {
-            x.severity == DiagnosticSeverity::Error && {
+            matches!(x.code, DiagnosticCode::UndefinedFunction | DiagnosticCode::UndefinedType | DiagnosticCode::UndefinedVariable | DiagnosticCode::CannotResolve) && {
                 let (a, b): (u32, u32) = (x.range.start().into(), x.range.end().into());
                 a < r.1 && r.0 < b
             }
@@ -336,19 +383,18 @@ pub fn run(args: &[String]) -> i32 {
     let n = read_ndjson(path).len();
     let jobs = (arg_u64(args, "--jobs", 12) as usize).clamp(1, n.max(1));
     let exe = std::env::current_exe().expect("current_exe");
-    // contiguous chunks, one chain of children per chunk
-    let chunk = (n + jobs - 1) / jobs.max(1);
+    // job j runs the scripts j, j + jobs, j + 2*jobs, .. in a chain of children
     let handles: Vec<_> = (0..jobs)
         .map(|j| {
-            let (from, to) = (j * chunk, ((j + 1) * chunk).min(n));
             let (exe, path, part) = (exe.clone(), path.to_string(), format!("{out}.part{j}"));
             std::thread::spawn(move || -> Result<(), String> {
                 let _ = std::fs::remove_file(&part);
                 std::fs::File::create(&part).map_err(|e| e.to_string())?;
-                let mut from = from;
-                while from < to {
+                let mut started = 0usize; // scripts of this job begun so far
+                while j + started * jobs < n {
+                    let from = j + started * jobs;
                     let st = std::process::Command::new(&exe)
-                        .args(["hirdb-run", "--child", "--scripts", &path, "--out", &part, "--from", &from.to_string(), "--to", &to.to_string()])
+                        .args(["hirdb-run", "--child", "--scripts", &path, "--out", &part, "--from", &from.to_string(), "--to", &n.to_string(), "--step", &jobs.to_string()])
                         .stderr(std::process::Stdio::null())
                         .status()
                         .map_err(|e| e.to_string())?;
@@ -356,21 +402,19 @@ pub fn run(args: &[String]) -> i32 {
                         break;
                     }
                     if st.code().is_some() {
-                        return Err(format!("child for scripts {from}..{to} failed with {st}"));
+                        return Err(format!("child of job {j} (from script {from}) failed with {st}"));
                     }
                     // killed by a signal while a script was running: that is data
                     let text = std::fs::read_to_string(&part).map_err(|e| e.to_string())?;
-                    let started = text.lines().filter(|l| l.contains("\"a\":\"Reset\"")).count();
-                    let done_before: usize = from - (j * chunk);
-                    let started_here = started - done_before.min(started);
-                    if started_here == 0 {
-                        return Err(format!("child for scripts {from}..{to} died with {st} before starting a script"));
+                    let now = text.lines().filter(|l| l.starts_with("{\"a\":\"Reset\"")).count();
+                    if now <= started {
+                        return Err(format!("child of job {j} died with {st} before starting a script"));
                     }
                     use std::io::Write;
                     let mut f = std::fs::OpenOptions::new().append(true).open(&part).map_err(|e| e.to_string())?;
                     let tail_ok = text.is_empty() || text.ends_with('\n');
                     writeln!(f, "{}{}", if tail_ok { "" } else { "\n" }, json!({"a": "Panic", "op": "abort", "db": "process", "msg": format!("{st}")})).map_err(|e| e.to_string())?;
-                    from += started_here;
+                    started = now;
                 }
                 Ok(())
             })
@@ -390,20 +434,42 @@ pub fn run(args: &[String]) -> i32 {
     if rc != 0 {
         return rc;
     }
+    // merge: run i is the (i / jobs)-th run of part i % jobs
+    use std::io::{BufRead, Write};
     let mut o = Out::create(out);
-    use std::io::Write;
-    for j in 0..jobs {
-        let part = format!("{out}.part{j}");
-        let text = std::fs::read_to_string(&part).unwrap_or_default();
-        for l in text.lines().filter(|l| !l.trim().is_empty()) {
+    let mut readers: Vec<_> = (0..jobs)
+        .map(|j| std::io::BufReader::new(std::fs::File::open(format!("{out}.part{j}")).expect("open part")).lines().peekable())
+        .collect();
+    for i in 0..n {
+        let r = &mut readers[i % jobs];
+        let mut first = true;
+        loop {
+            let is_reset = match r.peek() {
+                None => break,
+                Some(Ok(l)) => l.starts_with("{\"a\":\"Reset\""),
+                Some(Err(e)) => panic!("read part: {e}"),
+            };
+            if is_reset && !first {
+                break;
+            }
+            if !is_reset && first {
+                panic!("part {} does not continue with a Reset for script {i}", i % jobs);
+            }
+            first = false;
+            let l = r.next().unwrap().unwrap();
             // a line cut short by a dying child is dropped (the Panic event follows it)
-            if serde_json::from_str::<J>(l).is_ok() {
+            if serde_json::from_str::<J>(&l).is_ok() {
                 writeln!(o.0, "{l}").unwrap();
             }
         }
-        let _ = std::fs::remove_file(&part);
+        if first {
+            panic!("part {} has no run for script {i}", i % jobs);
+        }
     }
     o.flush();
+    for j in 0..jobs {
+        let _ = std::fs::remove_file(format!("{out}.part{j}"));
+    }
     0
 }
 
@@ -423,7 +489,17 @@ fn child(args: &[String]) -> i32 {
     let to = (arg_u64(args, "--to", scripts.len() as u64) as usize).min(scripts.len());
     let f = std::fs::OpenOptions::new().append(true).create(true).open(arg(args, "--out").expect("--out")).expect("open part");
     let mut o = Out(std::io::BufWriter::new(f));
-    for sc in &scripts[from..to] {
+    // self-test of the parent's bookkeeping only: TPV_HIRDB_SELFTEST_ABORT=<script index> makes the
+    // child die by SIGABRT in the middle of that script (never set by the checks)
+    let abort_at: Option<usize> = std::env::var("TPV_HIRDB_SELFTEST_ABORT").ok().and_then(|s| s.parse().ok());
+    let step = (arg_u64(args, "--step", 1) as usize).max(1);
+    for k in (from..to).step_by(step) {
+        let sc = &scripts[k];
+        if abort_at == Some(k) {
+            o.line(&json!({"a": "Reset", "nfiles": sc["nfiles"], "cat": [], "names": NAMES, "fnames": ["Fn1", "Fn2"]}));
+            o.flush();
+            std::process::abort();
+        }
         run_script(sc, &mut o);
     }
     o.flush();
@@ -443,11 +519,14 @@ fn run_script(sc: &J, o: &mut Out) {
     };
     // the static configuration the specification needs: the abstract contents
     let acat: Vec<J> = cat.iter().map(|e| json!({"decls": e["decls"], "refs": e["refs"], "opaque": e["opaque"] == json!(true)})).collect();
-    o.line(&json!({"a": "Reset", "nfiles": nfiles, "cat": acat, "names": NAMES}));
+    let fnames: Vec<&str> = NAMES.iter().copied().filter(|n| is_fn(n)).collect();
+    o.line(&json!({"a": "Reset", "nfiles": nfiles, "cat": acat, "names": NAMES, "fnames": fnames}));
     o.flush();
     let mut db = Database::new();
     let mut map: BTreeMap<u32, String> = BTreeMap::new();
     let mut cur: BTreeMap<u32, usize> = BTreeMap::new();
+    // answers given since the last set/remove, by (kind, file): a later repetition must agree
+    let mut since_edit: BTreeMap<(String, u32), Ans> = BTreeMap::new();
     for st in sc["steps"].as_array().unwrap() {
         let f = st["f"].as_u64().unwrap() as u32;
         let a = st["a"].as_str().unwrap();
@@ -458,6 +537,7 @@ fn run_script(sc: &J, o: &mut Out) {
                 let text = texts[t - 1].clone();
                 map.insert(f, text.clone());
                 cur.insert(f, t);
+                since_edit.clear();
                 if let Err(m) = guarded(|| db.set_source_text(FileId(f), text)) {
                     o.line(&panic_ev("Set", "incremental", m));
                     o.flush();
@@ -468,6 +548,7 @@ fn run_script(sc: &J, o: &mut Out) {
             "Remove" => {
                 map.remove(&f);
                 cur.remove(&f);
+                since_edit.clear();
                 if let Err(m) = guarded(|| db.remove_source_text(FileId(f))) {
                     o.line(&panic_ev("Remove", "incremental", m));
                     o.flush();
@@ -510,9 +591,11 @@ fn run_script(sc: &J, o: &mut Out) {
                         return;
                     }
                 };
+                let key = (kind.to_string(), f);
+                let same = inc.same(&again) && since_edit.get(&key).map_or(true, |old| old.same(&inc));
                 let (ci, cf) = (inc.canon(), fa.canon());
                 let mut ev = json!({"a": "Query", "kind": kind, "f": f, "present": present,
-                    "eq": inc.same(&fa), "same": inc.same(&again), "orderDep": !fa.same(&fd),
+                    "eq": inc.same(&fa), "same": same, "ord": fa.same(&fd),
                     "inc": sha(&ci), "fresh": sha(&cf),
                     "proj": if present { project(&inc, &refs) } else { vec![] },
                     "projFresh": if present { project(&fa, &refs) } else { vec![] }});
@@ -522,6 +605,7 @@ fn run_script(sc: &J, o: &mut Out) {
                     ev["freshAnswer"] = json!(cf.chars().take(6000).collect::<String>());
                 }
                 o.line(&ev);
+                since_edit.insert(key, inc);
             }
             o => panic!("harness: unknown step {o}"),
         }
